@@ -20,12 +20,24 @@ TRUSTED = [
     "exercised by the correspondence (real writer -> real readers, utf-8 / latin-1 / cp1251), not proved",
     "the line ends of the guesser's reader are probed from the running interpreter (str.splitlines), check_valid's rejected "
     "characters by calling it; the way OmenScorer opens its files is read from the source by ast (harness/consts/omen_level.py)",
-    "levels produced by smoothing (floor(-ln(..))) are taken as given",
+    "math.log and math.floor of smoothing._calc_level are oracles (parameters lg, fl of the model and of the translated "
+    "functions): nothing is assumed about them, the clamp to 0..10 is proved for every choice",
+    "harness/translate_omen_trainer.py: fail-closed ast translator of smoothing.py (_calc_level, smooth_grammar, "
+    "smooth_length), AlphabetLookup (__init__, is_in_alphabet, parse, apply_smoothing), omen_file_output.py "
+    "(_save_alphabet, save_omen_rules_to_disk) and AlphabetGenerator into gen/OmenTrainer*_gen.v (accepted subset and the "
+    "representation of Python values in its header: mutable objects as values named by their root, sub-objects as paths, "
+    "int / (level, count) leaves as a sum type, exceptions as values, the directory as a map path -> text, _save_config / "
+    "str(float) as oracles) and the runtime OmenTrainer.v / OmenTrainerRt.v it targets; ttab_of (the view of a smoothed "
+    "AlphabetLookup object as the table record the older translator and the models use) is part of that reading",
     "harness/translate_omen_level.py: fail-closed ast translator of find_omen_level and OmenScorer.parse into "
     "gen/OmenLevel_gen.v (accepted subset and the representation of Python values - ints as Z, strings as code points, "
     "the trainer / scorer objects as the model's records, dict subscripts as the model's lookups with None = KeyError, "
     "fuel for the while loop - in its header), and the runtime OmenRt.v it targets (Python slices / negative indices / "
     "try-except as functions)",
+    "correspondence of the trainer model (OmenTrainer.v: learn_alphabet, parse_all, apply_smoothing, the texts of save_rules) "
+    "against the real AlphabetGenerator / AlphabetLookup / smoothing / writer on every generated list (OmenTrainerCorr.v): "
+    "math.log is instantiated by the identity and math.floor by a table -probi |-> floor(-log(probi)) that the harness computes "
+    "with its own float arithmetic, so the model's binary64 probi is compared bit for bit",
     "guesser level of a string = the target level at which the real MarkovCracker emits it (levels enumerated completely "
     "under a size/time cap; undecided strings are counted, not guessed)",
 ]
@@ -198,6 +210,57 @@ def coq_case(T, sc, G, E, rows, consts):
         common.cbool(decoded_ok(T, consts)), sbreaks, common.cbool(sc is not None), common.cbool(G is not None))
 
 
+def coq_train_case(T, cfg):
+    """The training list and what the real pass 1 / pass 2 / smoothing produced, for OmenTrainerCorr.check_train.
+    The floor table is computed HERE (not by /repo): for every (count, total, factor) the trainer smooths,
+    -1.0 * probi |-> floor(-1 * log(probi))."""
+    import math
+    tr = T.trainer
+    tbl = {}
+
+    def add(base, total, factor):
+        if total == 0:
+            return
+        probi = base / total
+        probi = probi * factor
+        probi = probi + 0.00000000001
+        tbl[-1.0 * probi] = math.floor(-1 * math.log(probi))
+    for k, d in tr.grammar.items():
+        add(d["ip_count"], tr.ip_counter, 250)
+        add(d["ep_count"], tr.ep_counter, 250)
+        for c, lv in d["next_letter"].items():
+            add(lv[1], d["cp_count"], 2)
+    for lv in tr.ln_lookup:
+        add(lv[1], tr.ln_counter, 1)
+    floor = common.clist(["((%s)%%float, (%d)%%Z)" % (common.cfloat(x), v) for x, v in tbl.items()]) if tbl else "(@nil (float * Z))"
+    return "(mk_trcase (%d)%%Z (%d)%%Z (%d)%%Z\n %s\n %s\n %s\n %s\n ((%d)%%Z, (%d)%%Z, (%d)%%Z))" % (
+        cfg["alphabet_size"], cfg["ngram"], cfg["max_len"], ol.coq_pws_rle(T.valid), common.cstr(T.alphabet), floor,
+        ol.coq_tables(T.tables), tr.ip_counter, tr.ep_counter, tr.ln_counter)
+
+
+def coq_written_case(T):
+    """The directory the real writer left, for OmenTrainerCorr.check_written (texts decoded with the ruleset's encoding)."""
+    def text(name, enc=None):
+        return common.cstr(open(os.path.join(T.omen_dir, name), "rb").read().decode(enc or T.cfg["encoding"]))
+
+    def zz(items):
+        return common.clist(["((%d)%%Z, (%d)%%Z)" % (a, b) for a, b in items]) if items else "(@nil (Z * Z))"
+    prob = T.file_prob()
+    probs = common.clist(["((%d)%%Z, (%s)%%float)" % (a, common.cfloat(b)) for a, b in prob]) if prob else "(@nil (Z * float))"
+    return "(mk_wrcase %s\n %s\n %s\n %s\n (%d)%%Z\n %s\n %s\n %s\n %s\n %s\n %s\n %s\n %s)" % (
+        ol.coq_tables(T.tables), common.cstr(T.alphabet), zz(list(T.keyspace.items())), zz(list(T.levels_count.items())),
+        T.num_valid, text("IP.level"), text("EP.level"), text("CP.level"), text("LN.level", "ascii"), text("alphabet.txt"),
+        text("omen_keyspace.txt"), text("omen_pws_per_level.txt"), probs)
+
+
+WRITTEN_CODES = {1: "IP.level", 2: "EP.level", 3: "CP.level", 4: "LN.level", 5: "alphabet.txt", 6: "omen_keyspace.txt (reversed most_common)",
+                 7: "omen_pws_per_level.txt (most_common)", 8: "the probability loop raises in the model",
+                 9: "pcfg_omen_prob.txt (values and most_common order)"}
+
+TRAIN_CODES = {1: "the alphabet (AlphabetGenerator)", 2: "AlphabetLookup.parse raises in the model", 3: "ip / ep / ln totals",
+               4: "apply_smoothing raises in the model", 5: "the smoothed object has no table view",
+               6: "the smoothed tables (counts -> levels: keys, letters, order, IP / EP / CP / LN levels)"}
+
 CODES = {1: "trainer table invariants (wf_ttabb / closedb / levels <= 10)", 2: "IP.level lines", 3: "EP.level lines",
          4: "CP.level lines", 5: "LN.level lines", 6: "a string's level (trainer / scorer / guesser model vs implementation)",
          7: "level_strings of the model vs the MarkovCracker output of a level", 8: "omen_levels_count (pass 3)",
@@ -212,6 +275,8 @@ def run(ctx):
     budget = {"cap": ctx.scale(4000, 20000), "per_level": ctx.scale(0.25, 0.5), "per_model": ctx.scale(0.9, 1.3)}
     sc_dir = common.scratch()
     vio, samples, cases, case_cfg = [], [], [], []
+    train_cases, train_cfg = [], []
+    written_cases = []
     dist = {"models": 0, "unusable_lists": 0, "kinds": {}, "encodings": {}, "ngram": {}, "strings": 0,
             "seen_cp_at_cap_level": 0, "seen_length_at_cap_level": 0, "ip_levels": {}, "cp_levels": {}, "ln_levels": {},
             "strings_using_seen_cap_cp": 0,
@@ -277,6 +342,9 @@ def run(ctx):
         if len(samples) < 4 and rows:
             samples.append({"kind": cfg["kind"], "ngram": cfg["ngram"], "encoding": cfg["encoding"], "alphabet": T.alphabet,
                             "training": cfg["passwords"][:6], "rows": rows[:6]})
+        train_cases.append(coq_train_case(T, cfg))
+        train_cfg.append(cfg)
+        written_cases.append(coq_written_case(T) if T.saved else None)
         try:
             cases.append(coq_case(T, sc, G, E, rows, consts))
             case_cfg.append(cfg)
@@ -298,6 +366,8 @@ def run(ctx):
         shards.append(("s%04d" % (s // per), "\n".join(src)))
     import omen_gen_tie
     corr = [omen_gen_tie.status("omen-level:translator-tie", "gen/OmenLevel_gen.v", "theories/OmenLevelGenProofs.v")]
+    import omen_trainer_tie
+    corr += omen_trainer_tie.obligations("C11")
     if missing_consts:
         corr.append(("omen-level:constants", False, "constants missing from gen/Consts_gen.v (extractor plugin failed): %s; "
                      "no correspondence case could be written" % sorted(missing_consts)))
@@ -310,6 +380,39 @@ def run(ctx):
                          % (s + first // 10, first % 10, CODES.get(first % 10), json.dumps(case_cfg[s + first // 10])[:500])))
         else:
             corr.append(("omen-level:" + name, True, ""))
+    # ---- correspondence of the TRAINER model (OmenTrainer.v): alphabet, pass 2, smoothing on the same lists
+    tshards = []
+    for s0 in range(0, len(train_cases), per):
+        src = ["From Coq Require Import List NArith ZArith Floats.",
+               "From Pcfg Require Import OmenSpec OmenLevel OmenLevelCorr OmenTrainer OmenTrainerCorr.",
+               "Import ListNotations.",
+               "Definition cases : list trcase := [",
+               ";\n".join(train_cases[s0:s0 + per]), "].",
+               "Eval vm_compute in (failing_codes check_train cases)."]
+        tshards.append(("t%04d" % (s0 // per), "\n".join(src)))
+    wr = [(i, c) for i, c in enumerate(written_cases) if c is not None]
+    for s0 in range(0, len(wr), per):
+        src = ["From Coq Require Import List NArith ZArith Floats.",
+               "From Pcfg Require Import OmenSpec OmenLevel OmenLevelCorr OmenTrainer OmenTrainerCorr.",
+               "Import ListNotations.",
+               "Definition cases : list wrcase := [",
+               ";\n".join(c for _, c in wr[s0:s0 + per]), "].",
+               "Eval vm_compute in (failing_codes check_written cases)."]
+        tshards.append(("w%04d" % (s0 // per), "\n".join(src)))
+    for name, idx, log in common.run_case_shards("C11", tshards):
+        s0 = int(name[1:]) * per
+        if idx is None:
+            corr.append(("omen-trainer-model:" + name, False, log[-1200:]))
+        elif idx:
+            first = idx[0]
+            if name.startswith("t"):
+                what, ci = TRAIN_CODES.get(first % 10), s0 + first // 10
+            else:
+                what, ci = WRITTEN_CODES.get(first % 10), wr[s0 + first // 10][0]
+            corr.append(("omen-trainer-model:" + name, False, "model and implementation differ: case %d sub-check %d (%s); "
+                         "training list: %s" % (ci, first % 10, what, json.dumps(train_cfg[ci])[:500])))
+        else:
+            corr.append(("omen-trainer-model:" + name, True, ""))
     rule = ("generated training lists (3-40 passwords, alphabets of 2-8 symbols, n-gram 2-4; families: dominated by length = "
             "n-gram, single length, mixed, alphabet smaller than the character set, duplicates, non-ASCII in utf-8 / latin-1 / "
             "cp1251, long, empty CP, and 'extreme ratio' lists of ~100k weighted passwords in which a seen transition and a "
